@@ -40,6 +40,27 @@ class Signs(object):
         return v in self.positive
 
 
+def poly_sign(p, signs):
+    """+1 / -1 when every term is a product of positive variables with
+    coefficients of one sign (0 for the zero polynomial), else None."""
+    sg = set()
+    for m, c in p.t.items():
+        for v, e in m:
+            if not signs.is_pos_var(v) and e % 2:
+                return None
+        sg.add(1 if c > 0 else -1)
+    if not sg:
+        return 0
+    return sg.pop() if len(sg) == 1 else None
+
+
+def rat_sign(r, signs):
+    a, b = poly_sign(r.n, signs), poly_sign(r.d, signs)
+    if a is None or b is None or b == 0:
+        return None
+    return a * b
+
+
 def ired(r):
     """Reduce modulo I**2 = -1."""
     if 'I' in r.vars():
